@@ -39,6 +39,8 @@ CHECKS = {
          "For each sampled block of each generated history (best chain, side branch, pruned history; 1-70 txids) valid proofs in 4 encodings are verified and then every single-element corruption is enumerated.", "3/C18"),
  "C19": ("exploration", "runtime monitoring: locator well-formedness oracle after every operation + simulated conformant peer replies submitted back",
          "Locators for max in {1,2,3,10,50} after every op; real-chain fixture sweep around the split heights; peer replies must connect.", "3/C19"),
+ "C20": ("exploration", "runtime monitoring: linearizability checking (porcupine) of recorded concurrent peer-book histories under the race detector; model-based sequential differential incl. Save/Load round trip; fault enumeration over every prefix of saved files and damaged contents",
+         "Concurrent histories <= 40 ops checked against a sequential specification; sequential sequences vs model; every file prefix and seeded damaged files through Load, huge declared sizes in a 4 GiB child process.", "3/C20"),
 }
 NOT_YET = {}
 ALL = ["C%02d" % i for i in range(1, 21)]
